@@ -121,7 +121,7 @@ def make_cfgs(rng, n, months_choices=(12, 13, 24)):
     # also run on a fresh manager (appended to the list) so that the two can be compared
     extra = []
     for i, cfg in enumerate(list(cfgs)):
-        if i % 3 != 1:
+        if (i // len(GEOMS) + i) % 3 != 1:      # every design method gets followers across the rounds
             continue
         kind, scale, loads = ghelib.make_profile(rng, kind=rng.choice(["atlanta", "atlanta_neg", "balanced"]),
                                                  scale=cfg["scale"] * rng.choice([0.2, 0.5, 3.0, 8.0]))
